@@ -32,6 +32,9 @@ def tasks(ctx, quick):
         comp = gen.compound(nmin=2, nmax=5)
         base = {"kind": "rel", "compound": ["dict", comp], "density": rng.choice([0.5, 1.0, 2.2, 7.87, rng.uniform(0.05, 20)]),
                 "wavelength": rng.choice(WAVELENGTHS + [rng.uniform(0.05, 50)])}
+        base["how"] = ["density", "density", "natural", "carried-natural"][(i // 6) % 4]
+        if base["how"] == "carried-natural":
+            base["carried"] = rng.choice([1.0, 3.3, 11.0])
         m = i % 6
         if m == 0:
             add(dict(base, rel="density", k=rng.choice([0.5, 2.0, 3.7, 10.0, 1e-3, 1e-9, 1e-13, 1e4, rng.uniform(0.1, 9)])))
